@@ -51,6 +51,18 @@ Proof.
   destruct (R1 _ O1) as [_ ->]. destruct (R2 _ O2) as [_ ->]. reflexivity.
 Qed.
 
+(* THE TIE BY TRANSLATION for the search window: channel/read.go processReadBuf as the source has
+   it on this run is, for every buffer and every search depth, the model's process_read_buf — the
+   whole buffer when it is not longer than the depth, else its last [sd] bytes, cut at the first
+   line feed when that is not at index 0 *)
+From Scrapli Require Import DecideLang GeneratedSkel ChannelSrc.
+Theorem C01_process_read_buf_is_source : forall rb sd,
+  exists w, prb_run (Nat.leb (length rb) sd)
+                    (match lf_index_pos (tail_of rb sd) with Some _ => true | None => false end) = Some w
+            /\ process_read_buf rb sd = window_of rb sd w.
+Proof. exact process_read_buf_is_source. Qed.
+
 Print Assumptions C01_cli_alignment.
 Print Assumptions C01_progress.
 Print Assumptions C01_schedule_independent.
+Print Assumptions C01_process_read_buf_is_source.
